@@ -1,1 +1,288 @@
 // Kani harnesses compiled inside rs-matter/src/transport.rs (module `verif_kani`).
+
+pub(crate) mod c03 {
+    #[allow(unused_imports)]
+    use super::*;
+
+    pub(crate) mod mock {
+        use core::cell::Cell;
+
+        use crate::crypto::backend::dummy::DummyCrypto;
+        use crate::crypto::{Aead, Crypto, CryptoSensitiveRef, AEAD_CANON_KEY_LEN, AEAD_NONCE_LEN, AEAD_TAG_LEN};
+        use crate::error::{Error, ErrorCode};
+
+        pub(crate) const AAD_CAP: usize = 32;
+        pub(crate) const DATA_CAP: usize = 48;
+
+        /// What the AEAD primitive was handed in one call.
+        #[derive(Clone, Copy)]
+        pub(crate) struct AeadCall {
+            pub encrypt: bool,
+            pub key: [u8; AEAD_CANON_KEY_LEN],
+            pub nonce: [u8; AEAD_NONCE_LEN],
+            pub aad: [u8; AAD_CAP],
+            pub aad_len: usize,
+            /// the `data` slice as handed over (cipher text + tag on decrypt; plain text + tag
+            /// space on encrypt), first `DATA_CAP` bytes
+            pub data: [u8; DATA_CAP],
+            pub data_len: usize,
+            /// `data_len` argument of `encrypt_in_place` (plain text length)
+            pub pt_len: usize,
+        }
+
+        /// A `Crypto` whose only live primitives are the AEAD and the RNG.
+        ///
+        /// ASSUMED CONTRACT OF THE AEAD (AES-CCM itself is out of reach; C03 rests on this):
+        ///   `decrypt_in_place(k, n, aad, ct ‖ tag)` returns `Ok` only if `ct ‖ tag` is the output
+        ///   of `encrypt_in_place(k, n, aad, pt)` for some `pt` - same key, same nonce, same AAD,
+        ///   every bit of each - and then leaves `pt` in `data[..len - TAG]`. It returns `Err`
+        ///   otherwise, and `Err` when `data` is shorter than the tag.
+        /// What the mock does instead of computing: it RECORDS `(k, n, aad, data)` so the harness
+        /// can state what the code handed to the primitive, and returns the verdict the harness
+        /// chose (`aead_ok`, any value): the code is proved for every behaviour of the primitive.
+        /// The data bytes are left as they are (cipher text == plain text): since the harness
+        /// quantifies over all input bytes this still ranges over all plain texts.
+        ///
+        /// The RNG returns the harness-chosen `rand_value` (any value). Everything else panics,
+        /// like `DummyCrypto`: reaching it fails the harness.
+        pub(crate) struct MockCrypto {
+            pub aead_ok: bool,
+            pub rand_ok: bool,
+            pub rand_value: u32,
+            pub calls: Cell<usize>,
+            pub last: Cell<Option<AeadCall>>,
+        }
+
+        impl MockCrypto {
+            pub(crate) fn new(aead_ok: bool, rand_ok: bool, rand_value: u32) -> Self {
+                Self {
+                    aead_ok,
+                    rand_ok,
+                    rand_value,
+                    calls: Cell::new(0),
+                    last: Cell::new(None),
+                }
+            }
+
+            fn record(&self, encrypt: bool, key: &[u8; AEAD_CANON_KEY_LEN], nonce: &[u8; AEAD_NONCE_LEN], aad: &[u8], data: &[u8], pt_len: usize) {
+                let mut c = AeadCall {
+                    encrypt,
+                    key: *key,
+                    nonce: *nonce,
+                    aad: [0; AAD_CAP],
+                    aad_len: aad.len(),
+                    data: [0; DATA_CAP],
+                    data_len: data.len(),
+                    pt_len,
+                };
+                let n = if aad.len() < AAD_CAP { aad.len() } else { AAD_CAP };
+                c.aad[..n].copy_from_slice(&aad[..n]);
+                let m = if data.len() < DATA_CAP { data.len() } else { DATA_CAP };
+                c.data[..m].copy_from_slice(&data[..m]);
+                self.calls.set(self.calls.get() + 1);
+                self.last.set(Some(c));
+            }
+        }
+
+        pub(crate) struct MockAead<'a>(&'a MockCrypto);
+
+        impl Aead<AEAD_CANON_KEY_LEN, AEAD_NONCE_LEN> for MockAead<'_> {
+            fn encrypt_in_place<'a>(
+                &mut self,
+                key: CryptoSensitiveRef<'_, AEAD_CANON_KEY_LEN>,
+                nonce: CryptoSensitiveRef<'_, AEAD_NONCE_LEN>,
+                aad: &[u8],
+                data: &'a mut [u8],
+                data_len: usize,
+            ) -> Result<&'a [u8], Error> {
+                self.0.record(true, key.access(), nonce.access(), aad, data, data_len);
+                // precondition of the primitive: room for the tag behind the plain text
+                kani::assert(data_len + AEAD_TAG_LEN <= data.len(), "C03.mock.encrypt_has_tag_space");
+                if self.0.aead_ok {
+                    Ok(data)
+                } else {
+                    Err(ErrorCode::Failure.into())
+                }
+            }
+
+            fn decrypt_in_place<'a>(
+                &mut self,
+                key: CryptoSensitiveRef<'_, AEAD_CANON_KEY_LEN>,
+                nonce: CryptoSensitiveRef<'_, AEAD_NONCE_LEN>,
+                aad: &[u8],
+                data: &'a mut [u8],
+            ) -> Result<&'a [u8], Error> {
+                self.0.record(false, key.access(), nonce.access(), aad, data, 0);
+                if self.0.aead_ok && data.len() >= AEAD_TAG_LEN {
+                    let n = data.len() - AEAD_TAG_LEN;
+                    let d: &'a [u8] = data;
+                    Ok(&d[..n])
+                } else {
+                    Err(ErrorCode::Failure.into())
+                }
+            }
+        }
+
+        #[derive(Clone, Copy)]
+        pub(crate) struct MockRand(u32);
+
+        impl rand_core::RngCore for MockRand {
+            fn next_u32(&mut self) -> u32 {
+                self.0
+            }
+
+            fn next_u64(&mut self) -> u64 {
+                self.0 as u64
+            }
+
+            fn fill_bytes(&mut self, _dest: &mut [u8]) {
+                unimplemented!()
+            }
+
+            fn try_fill_bytes(&mut self, _dest: &mut [u8]) -> Result<(), rand_core::Error> {
+                unimplemented!()
+            }
+        }
+
+        impl rand_core::CryptoRng for MockRand {}
+
+        impl Crypto for MockCrypto {
+            type Rand<'a>
+                = MockRand
+            where
+                Self: 'a;
+            type WeakRand<'a>
+                = MockRand
+            where
+                Self: 'a;
+            type Hash<'a>
+                = DummyCrypto
+            where
+                Self: 'a;
+            type Hash1<'a>
+                = DummyCrypto
+            where
+                Self: 'a;
+            type Hmac<'a>
+                = DummyCrypto
+            where
+                Self: 'a;
+            type Kdf<'a>
+                = DummyCrypto
+            where
+                Self: 'a;
+            type PbKdf<'a>
+                = DummyCrypto
+            where
+                Self: 'a;
+            type Aead<'a>
+                = MockAead<'a>
+            where
+                Self: 'a;
+            type PublicKey<'a>
+                = DummyCrypto
+            where
+                Self: 'a;
+            type SecretKey<'a>
+                = DummyCrypto
+            where
+                Self: 'a;
+            type SigningSecretKey<'a>
+                = DummyCrypto
+            where
+                Self: 'a;
+            type EcScalar<'a>
+                = DummyCrypto
+            where
+                Self: 'a;
+            type EcPoint<'a>
+                = DummyCrypto
+            where
+                Self: 'a;
+
+            fn rand(&self) -> Result<Self::Rand<'_>, Error> {
+                if self.rand_ok {
+                    Ok(MockRand(self.rand_value))
+                } else {
+                    Err(ErrorCode::Failure.into())
+                }
+            }
+
+            fn weak_rand(&self) -> Result<Self::WeakRand<'_>, Error> {
+                if self.rand_ok {
+                    Ok(MockRand(self.rand_value))
+                } else {
+                    Err(ErrorCode::Failure.into())
+                }
+            }
+
+            fn hash(&self) -> Result<Self::Hash<'_>, Error> {
+                unimplemented!()
+            }
+
+            fn hash1(&self) -> Result<Self::Hash1<'_>, Error> {
+                unimplemented!()
+            }
+
+            fn hmac<const KEY_LEN: usize>(&self, _key: CryptoSensitiveRef<'_, KEY_LEN>) -> Result<Self::Hmac<'_>, Error> {
+                unimplemented!()
+            }
+
+            fn kdf(&self) -> Result<Self::Kdf<'_>, Error> {
+                unimplemented!()
+            }
+
+            fn pbkdf(&self) -> Result<Self::PbKdf<'_>, Error> {
+                unimplemented!()
+            }
+
+            fn aead(&self) -> Result<Self::Aead<'_>, Error> {
+                Ok(MockAead(self))
+            }
+
+            fn pub_key(&self, _key: crate::crypto::CanonPkcPublicKeyRef<'_>) -> Result<Self::PublicKey<'_>, Error> {
+                unimplemented!()
+            }
+
+            fn generate_secret_key(&self) -> Result<Self::SecretKey<'_>, Error> {
+                unimplemented!()
+            }
+
+            fn secret_key(&self, _key: crate::crypto::CanonPkcSecretKeyRef<'_>) -> Result<Self::SecretKey<'_>, Error> {
+                unimplemented!()
+            }
+
+            fn singleton_singing_secret_key(&self) -> Result<Self::SigningSecretKey<'_>, Error> {
+                unimplemented!()
+            }
+
+            fn ec_scalar(&self, _scalar: crate::crypto::CanonEcScalarRef<'_>) -> Result<Self::EcScalar<'_>, Error> {
+                unimplemented!()
+            }
+
+            fn ec_scalar_mod_p(&self, _uint: crate::crypto::CanonUint320Ref<'_>) -> Result<Self::EcScalar<'_>, Error> {
+                unimplemented!()
+            }
+
+            fn generate_ec_scalar(&self) -> Result<Self::EcScalar<'_>, Error> {
+                unimplemented!()
+            }
+
+            fn ec_point(&self, _point: crate::crypto::CanonEcPointRef<'_>) -> Result<Self::EcPoint<'_>, Error> {
+                unimplemented!()
+            }
+
+            fn ec_generator_point(&self) -> Result<Self::EcPoint<'_>, Error> {
+                unimplemented!()
+            }
+        }
+
+        /// Reference nonce, from the Matter message format: security flags (1 byte) ‖ message
+        /// counter (4 bytes LE) ‖ source node id (8 bytes LE).
+        pub(crate) fn ref_nonce(sec_flags: u8, ctr: u32, node: u64) -> [u8; AEAD_NONCE_LEN] {
+            let c = ctr.to_le_bytes();
+            let n = node.to_le_bytes();
+            [sec_flags, c[0], c[1], c[2], c[3], n[0], n[1], n[2], n[3], n[4], n[5], n[6], n[7]]
+        }
+    }
+}
